@@ -15,17 +15,18 @@ import (
 
 // Options configures one exploration (explorer A) or one history search (explorer B).
 type Options struct {
-	Name        string
-	Bound       int  // largest deviation (preemption) bound to explore; iterated 0..Bound
-	Horizon     int  // max scheduling points per execution (default 20000)
-	AutoAdvance bool // when every thread is blocked, jump to the next virtual timer
-	SelectCost  int  // deviation cost of a non-default ready select case (default 1; -1 = free)
-	AllowPanic  bool // uncaught panics in managed threads are outcomes, not violations
-	MustCollide bool // vacuity guard: more than one distinct outcome expected
-	NoWarmup    bool
-	MaxExecs    int // cap on executions (0 = none); hitting it clears Exhaustive
-	Budget      time.Duration
-	Prune       bool // happens-before state caching (sound only if all cross-thread communication is tracked; see hb.go)
+	Name               string
+	Bound              int  // largest deviation (preemption) bound to explore; iterated 0..Bound
+	Horizon            int  // max scheduling points per execution (default 20000)
+	AutoAdvance        bool // when every thread is blocked, jump to the next virtual timer
+	SelectCost         int  // deviation cost of a non-default ready select case (default 1; -1 = free)
+	AllowPanic         bool // uncaught panics in managed threads are outcomes, not violations
+	MustCollide        bool // vacuity guard: more than one distinct outcome expected
+	NoWarmup           bool
+	MaxExecs           int // cap on executions (0 = none); hitting it clears Exhaustive
+	Budget             time.Duration
+	AllowDriverBlocked bool // do not treat a main thread that is still blocked at quiescence as a deadlock
+	Prune              bool // happens-before state caching (sound only if all cross-thread communication is tracked; see hb.go)
 }
 
 // Run is the per-execution handle given to the harness body.
@@ -173,6 +174,22 @@ func oneExec(o *Options, body func(*Run), prefix []int) (*Run, execResult) {
 	res := s.runOnce(r, body, prefix)
 	if res.abortMsg != "" {
 		r.fails = append(r.fails, res.abortMsg)
+	}
+	if !res.pruned && res.abortMsg == "" && !o.AllowDriverBlocked {
+		// the harness body itself must always run to completion: a driver that is still
+		// parked at quiescence means the code under test deadlocked or lost a wake-up
+		for _, l := range res.leaked {
+			if l.ID == 0 {
+				var others []string
+				for _, x := range res.leaked {
+					if x.ID != 0 {
+						others = append(others, x.Site+" blocked in "+x.Blocked)
+					}
+				}
+				sort.Strings(others)
+				r.fails = append([]string{fmt.Sprintf("deadlock: the scenario's main thread is still blocked in %s at quiescence (other blocked threads: %v)", l.Blocked, others)}, r.fails...)
+			}
+		}
 	}
 	return r, res
 }
